@@ -807,6 +807,9 @@ class LocAlt(Field):
     def rand(self, rng):
         return rng.choice([rng.randrange(1 << 32), 10000000 + rng.randint(-100000, 900000)]), "loc-altitude"
 
+    def classify(self, v):
+        return "loc-altitude"
+
     def ctor(self, v):
         return float(v - 10000000)
 
@@ -993,6 +996,14 @@ class TypeSpec:
         return vals
 
     def pair_values(self, f, thorough):
+        ck = (f.attr, thorough, M.MODE["FULL_OCTETS"], M.MODE["FULL_INTS"])
+        cache = self.__dict__.setdefault("_pv_cache", {})
+        if ck in cache:
+            return cache[ck]
+        cache[ck] = self._pair_values(f, thorough)
+        return cache[ck]
+
+    def _pair_values(self, f, thorough):
         b = f.boundary(thorough)
         if not b:
             return []
@@ -1471,7 +1482,8 @@ def build_specs():
     S.append(TypeSpec(ANY, "OPT", [Options("options")], parses_text=False, text_fn=_text_none, rdclasses=[4096, 512, 65535, 0, 1232]))
     for t in ("SVCB", "HTTPS"):
         S.append(_svcb(t))
-    S.append(TypeSpec(IN, "APL", [APLItems("items")]))
+    # RFC 3123 defines the text form for families 1 and 2 only
+    S.append(TypeSpec(IN, "APL", [APLItems("items")], text_ok=lambda vals: all(it[0] in (1, 2) for it in vals["items"])))
     S.append(
         TypeSpec(
             ANY,
